@@ -54,3 +54,15 @@ pub fn record_normals(n: &[f64]) {
 pub fn take_normals() -> Vec<Vec<f64>> {
     std::mem::take(&mut *NORMALS.lock().unwrap())
 }
+
+static OUTCOMES: Mutex<Vec<usize>> = Mutex::new(Vec::new());
+
+/// Called by `measure_mask` with the masked outcome of every draw.
+pub fn record_outcome(value: usize) {
+    OUTCOMES.lock().unwrap().push(value);
+}
+
+/// Take (and clear) the outcomes recorded so far.
+pub fn take_outcomes() -> Vec<usize> {
+    std::mem::take(&mut *OUTCOMES.lock().unwrap())
+}
